@@ -1,6 +1,8 @@
 import Octo.Proofs.VmessBodyGen
 import Octo.Props.C04Vmess
 import Octo.Props.C05Vmess
+import Octo.Props.C03More
+import Octo.Props.C12
 /-!
 # C04 / C05 / C07 / C12 (and the datagram half of C02) for the VMess AEAD body codec **as translated from the Rust source**
 
@@ -204,5 +206,156 @@ example (A : ExtOk X C) (hC : C.Lawful) (ov : Bool) (e : Body) (he : e.st = .pad
   let ⟨s', _, _, e1, _⟩ := c05_gen_vmess_body_prefix_segmented A hC ov e e (by cases e; simp only at he; subst he; rfl) ps hfit
     pieces hnf h64 g sess h hs
   ⟨s', e1⟩
+
+/-! ### the encoder: C03 (wire format), C12 (one counter value per seal), C02 (a datagram travels in one chunk), round trips -/
+
+/-- **C03 — `encode_chunk` of the generated code is the model's `Body.encodeChunk`**: the chunk carries
+`min(src, payload_limit - tag_size - size_bytes - padding)` bytes, the size field says sealed + padding + tag (plain, masked with
+the next SHAKE value, or sealed by the length cipher under its own key and counter), the payload is sealed under the next
+counter value, the padding bytes are those drawn from the random source `X.fill_bytes`; never a panic, never `Err`; the codec,
+the session and the random source end in the model's state -/
+theorem c03_gen_encode_chunk_eq (A : ExtOk X C) (hC : C.Lawful) (ov : Bool) (g : AEADBodyCodec CM XR) (b : Body) (h : RelCore A g b)
+    (rng : RNG) (src dst : Bytes) (sess : DynSession) (hs : SessE sess b) (h64 : src.length < 2 ^ 64) :
+    ∃ g' sess', AEADBodyCodec.encode_chunk X ov g rng src dst sess =
+        PWGen.Res.ok (g', (X.fill_bytes rng (List.replicate (b.nextPadding C).1 0)).1,
+          (b.encodeChunk C src (X.fill_bytes rng (List.replicate (b.nextPadding C).1 0)).2).2.1,
+          dst ++ (b.encodeChunk C src (X.fill_bytes rng (List.replicate (b.nextPadding C).1 0)).2).1, sess', RResult.ok ()) ∧
+      RelCore A g' (b.encodeChunk C src (X.fill_bytes rng (List.replicate (b.nextPadding C).1 0)).2).2.2 ∧
+      SessE sess' (b.encodeChunk C src (X.fill_bytes rng (List.replicate (b.nextPadding C).1 0)).2).2.2 ∧ g'.state = g.state :=
+  encode_chunk_spec A hC ov g b h rng src dst sess hs h64
+
+/-- a session for the encoder (a server: encoder nonce and chunk nonce are different fields) -/
+def sessOfE (b : Body) : DynSession := .ServerSession ⟨b.sizeIv, [], b.iv, [], 0⟩
+
+theorem sessE_sessOfE (b : Body) (h1 : 12 ≤ b.iv.length) (h2 : 12 ≤ b.sizeIv.length) : SessE (sessOfE b) b :=
+  ⟨⟨h1, rfl⟩, h2, fun _ => rfl⟩
+
+example (ov : Bool) (b : Body) (hb : b.st = .padding) (h1 : 12 ≤ b.iv.length) (h2 : 12 ≤ b.sizeIv.length) (src : Bytes)
+    (h64 : src.length < 2 ^ 64) :
+    ∃ r, AEADBodyCodec.encode_chunk (extOf Crypto.toy) ov (genOf b) () src [] (sessOfE b) = PWGen.Res.ok r :=
+  let ⟨_, _, e, _⟩ := c03_gen_encode_chunk_eq (extOf_ok Crypto.toy) Crypto.toy_lawful ov (genOf b) b (rel_genOf _ b hb).core () src []
+    (sessOfE b) (sessE_sessOfE b h1 h2) h64
+  ⟨_, e⟩
+
+/-- **C03 — against the published format**: with AuthenticatedLength, no global padding, AES-128-GCM and both counters equal
+(as from `new` on) the bytes the generated `encode_chunk` appends are `Spec.vmessChunkAuthLen` of the first
+`min(src, 2048 - 34)` source bytes (via `c03_vmess_body_chunk_eq_spec`) -/
+theorem c03_gen_encode_chunk_is_spec (A : ExtOk X C) (hC : C.Lawful) (ov : Bool) (g : AEADBodyCodec CM XR) (b : Body) (h : RelCore A g b)
+    (lenKey : Bytes) (hsize : b.size = .auth) (hpad : b.globalPadding = false) (hsec : b.sec = .aes128gcm)
+    (hcount : b.sizeCount = b.count) (hsk : b.sizeKey = (Spec.vmessKdf C lenKey [Spec.ascii "auth_len"]).take 16)
+    (rng : RNG) (src dst : Bytes) (sess : DynSession) (hs : SessE sess b) (h64 : src.length < 2 ^ 64) :
+    ∃ g' rng' sess', AEADBodyCodec.encode_chunk X ov g rng src dst sess =
+      PWGen.Res.ok (g', rng', src.drop (min src.length (Consts.vmessPayloadLimit - 34)),
+        dst ++ Spec.vmessChunkAuthLen C b.key b.iv lenKey b.sizeIv b.count (src.take (min src.length (Consts.vmessPayloadLimit - 34))),
+        sess', RResult.ok ()) := by
+  obtain ⟨g', sess', e, _⟩ := encode_chunk_spec A hC ov g b h rng src dst sess hs h64
+  rw [c03_vmess_body_chunk_eq_spec C b lenKey hsize hpad hsec hcount hsk] at e
+  exact ⟨g', _, sess', e⟩
+
+example : ∃ b : Body, b.size = .auth ∧ b.globalPadding = false ∧ b.sec = .aes128gcm ∧ b.sizeCount = b.count ∧
+    b.sizeKey = (Spec.vmessKdf Crypto.toy [1] [Spec.ascii "auth_len"]).take 16 :=
+  ⟨{ sec := .aes128gcm, key := [], iv := [], size := .auth, sizeKey := (Spec.vmessKdf Crypto.toy [1] [Spec.ascii "auth_len"]).take 16,
+     globalPadding := false, shakeSeed := [] }, rfl, rfl, rfl, rfl, rfl⟩
+
+/-- **C12 — one counter value per seal**: after `encode_chunk` the payload cipher's counter of the generated codec is the old
+one plus one (mod 2^16) — the single `seal` of the chunk used the old value (`c12_gen_seal_one_nonce`) -/
+theorem c12_gen_encode_chunk_one_count (A : ExtOk X C) (hC : C.Lawful) (ov : Bool) (g : AEADBodyCodec CM XR) (b : Body)
+    (h : RelCore A g b) (rng : RNG) (src dst : Bytes) (sess : DynSession) (hs : SessE sess b) (h64 : src.length < 2 ^ 64) :
+    ∃ g' r' s' d' sess', AEADBodyCodec.encode_chunk X ov g rng src dst sess = PWGen.Res.ok (g', r', s', d', sess', RResult.ok ()) ∧
+      g'.auth.counting.count.toNat = (b.count + 1) % 65536 := by
+  obtain ⟨g', sess', e, hc, _⟩ := encode_chunk_spec A hC ov g b h rng src dst sess hs h64
+  exact ⟨g', _, _, _, sess', e, by rw [hc.auth.2.1, c12_vmess_one_count_per_chunk]⟩
+
+example (ov : Bool) (b : Body) (hb : b.st = .padding) (h1 : 12 ≤ b.iv.length) (h2 : 12 ≤ b.sizeIv.length) :
+    ∃ g' r' s' d' sess', AEADBodyCodec.encode_chunk (extOf Crypto.toy) ov (genOf b) () [1, 2, 3] [] (sessOfE b) =
+      PWGen.Res.ok (g', r', s', d', sess', RResult.ok ()) ∧ g'.auth.counting.count.toNat = (b.count + 1) % 65536 :=
+  c12_gen_encode_chunk_one_count (extOf_ok Crypto.toy) Crypto.toy_lawful ov (genOf b) b (rel_genOf _ b hb).core () _ _ _
+    (sessE_sessOfE b h1 h2) (by decide)
+
+/-- **C02 — a datagram travels in exactly one chunk or not at all**: `encode_packet` refuses (`Err`, nothing written, nothing
+drawn, codec and session untouched) exactly the datagrams longer than `payload_limit - tag - size_bytes - 63` (`- 0` without
+global padding) — those that might not fit whatever the padding turns out to be; every other datagram becomes one chunk -/
+theorem c02_gen_encode_packet_guard (A : ExtOk X C) (hC : C.Lawful) (ov : Bool) (g : AEADBodyCodec CM XR) (b : Body) (h : RelCore A g b)
+    (rng : RNG) (src dst : Bytes) (sess : DynSession) (hs : SessE sess b) (h64 : src.length < 2 ^ 64) :
+    (b.packetLimit < src.length →
+      AEADBodyCodec.encode_packet X ov g rng src dst sess = PWGen.Res.ok (g, rng, dst, sess, RResult.err)) ∧
+    (src.length ≤ b.packetLimit → ∃ g' sess', AEADBodyCodec.encode_packet X ov g rng src dst sess =
+        PWGen.Res.ok (g', (X.fill_bytes rng (List.replicate (b.nextPadding C).1 0)).1,
+          dst ++ (b.encodeChunk C src (X.fill_bytes rng (List.replicate (b.nextPadding C).1 0)).2).1, sess', RResult.ok ()) ∧
+      RelCore A g' (b.encodeChunk C src (X.fill_bytes rng (List.replicate (b.nextPadding C).1 0)).2).2.2 ∧
+      SessE sess' (b.encodeChunk C src (X.fill_bytes rng (List.replicate (b.nextPadding C).1 0)).2).2.2 ∧ g'.state = g.state) :=
+  encode_packet_spec A hC ov g b h rng src dst sess hs h64
+
+example : (exBody .shake true .chacha20).packetLimit = 1967 ∧ (exBody .auth false .aes128gcm).packetLimit = 2014 := by decide
+
+/-- **C03/C04 — `encode_payload` of the generated code** = the model's chunk loop with every chunk's padding bytes drawn from the
+random source (`encodePayloadR`, which is `Body.encodePayloadP` on those bytes: `encodePayloadR_eq_P`, `padsR_ok`): no panic,
+no `Err`, the loop ends within its fuel -/
+theorem c03_gen_encode_payload_eq (A : ExtOk X C) (hC : C.Lawful) (ov : Bool) (g : AEADBodyCodec CM XR) (b : Body) (h : RelCore A g b)
+    (rng : RNG) (src dst : Bytes) (sess : DynSession) (hs : SessE sess b) (h64 : src.length < 2 ^ 64) :
+    ∃ g' sess', AEADBodyCodec.encode_payload X ov g rng src dst sess =
+        PWGen.Res.ok (g', (encodePayloadR X C (src.length + 1) b rng src).2.2,
+          dst ++ (encodePayloadR X C (src.length + 1) b rng src).1, sess', RResult.ok ()) ∧
+      RelCore A g' (encodePayloadR X C (src.length + 1) b rng src).2.1 ∧
+      SessE sess' (encodePayloadR X C (src.length + 1) b rng src).2.1 ∧ g'.state = g.state :=
+  encode_payload_spec A hC ov g b h rng src dst sess hs h64
+
+theorem c03_gen_encode_payload_is_modelP (X : Ext CM XR RNG) (C : Crypto) (k : Nat) (b : Body) (r : RNG) (src : Bytes) :
+    (encodePayloadR X C k b r src).1 = (Body.encodePayloadP C k b src (padsR X C k b r src)).1 ∧
+    (encodePayloadR X C k b r src).2.1 = (Body.encodePayloadP C k b src (padsR X C k b r src)).2 :=
+  encodePayloadR_eq_P X C k b r src
+
+/-- **round trip, stream**: what the generated `encode_payload` writes, cut into any pieces and fed read by read to the generated
+`decode_payload` of a synchronised peer, comes out as exactly the source bytes — no error, no panic, empty buffer; all option
+combinations, both ciphers -/
+theorem c04_gen_roundtrip_segmented (A : ExtOk X C) (hC : C.Lawful) (ov : Bool) (e d : Body) (hsy : Body.Sync e d)
+    (ge gd : AEADBodyCodec CM XR) (he : RelCore A ge e) (hd : Rel A gd d) (rng : RNG) (src : Bytes) (se sd : DynSession)
+    (hse : SessE se e) (hsd : SessD sd d) (g' : AEADBodyCodec CM XR) (rng' : RNG) (wire : Bytes) (se' : DynSession)
+    (henc : AEADBodyCodec.encode_payload X ov ge rng src [] se = PWGen.Res.ok (g', rng', wire, se', RResult.ok ()))
+    (pieces : List Bytes) (hcut : pieces.flatten = wire) (h64 : wire.length < 2 ^ 64) (hs64 : src.length < 2 ^ 64) :
+    ∃ s', genFeedAll X ov ⟨gd, [], sd, [], false⟩ pieces = some s' ∧ s'.out = src ∧ s'.failed = false ∧ s'.buf = [] := by
+  obtain ⟨g2, s2, e2, _⟩ := encode_payload_spec A hC ov ge e he rng src [] se hse hs64
+  rw [henc] at e2
+  have hw : wire = (Body.encodePayloadP C (src.length + 1) e src (padsR X C (src.length + 1) e rng src)).1 := by
+    have := congrArg (fun r => match r with | PWGen.Res.ok (_, _, w, _, _) => w | _ => []) e2
+    simp only [List.nil_append] at this
+    rw [this, (encodePayloadR_eq_P X C _ e rng src).1]
+  have hdp : d.st = .padding := by rw [hsy]
+  obtain ⟨s', e1, h1, h2, h3, h4, h5, h6⟩ := genFeedAll_sim A hC ov pieces _ _ (sim_start A gd sd d hdp hd hsd)
+    (by rw [run_nil C d hdp, hcut]; simpa using h64)
+  obtain ⟨m1, m2, m3, _, _⟩ := c04_vmess_bodyP_segmented C hC e d hsy src _ (padsR_ok A _ e rng src) pieces (by rw [hcut, hw])
+  exact ⟨s', e1, by rw [h6 m2]; exact m1, by rw [h4]; exact m2, by rw [h3]; exact m3⟩
+
+example (ov : Bool) (k : SizeKind) (gp : Bool) (sec : Security) :
+    ∃ r, AEADBodyCodec.encode_payload (extOf Crypto.toy) ov (genOf (exBody k gp sec)) () [10, 20, 30] [] (sessOfE (exBody k gp sec)) =
+      PWGen.Res.ok r :=
+  let ⟨_, _, e, _⟩ := c03_gen_encode_payload_eq (extOf_ok Crypto.toy) Crypto.toy_lawful ov (genOf (exBody k gp sec)) (exBody k gp sec)
+    (rel_genOf _ _ rfl).core () [10, 20, 30] [] _ (sessE_sessOfE _ (by simp [exBody]) (by simp [exBody])) (by decide)
+  ⟨_, e⟩
+
+/-- **round trip, datagram**: what the generated `encode_packet` writes for a datagram that fits, followed by anything, gives
+exactly that datagram back from the generated `decode_packet` of a synchronised peer, and leaves what followed -/
+theorem c02_gen_packet_roundtrip (A : ExtOk X C) (hC : C.Lawful) (ov : Bool) (e d : Body) (hsy : Body.Sync e d)
+    (ge gd : AEADBodyCodec CM XR) (he : RelCore A ge e) (hd : Rel A gd d) (rng : RNG) (src t : Bytes) (se sd : DynSession)
+    (hse : SessE se e) (hsd : SessD sd d) (hfit : src.length ≤ e.packetLimit) (h64 : src.length < 2 ^ 64) :
+    ∃ g' rng' wire se', AEADBodyCodec.encode_packet X ov ge rng src [] se = PWGen.Res.ok (g', rng', wire, se', RResult.ok ()) ∧
+      ((wire ++ t).length < 2 ^ 64 → ∃ gd' sd', AEADBodyCodec.decode_packet X ov gd (wire ++ t) sd =
+        PWGen.Res.ok (gd', t, sd', RResult.ok (some src))) := by
+  obtain ⟨g', se', e1, _⟩ := (encode_packet_spec A hC ov ge e he rng src [] se hse h64).2 hfit
+  refine ⟨g', _, _, se', e1, ?_⟩
+  intro hl
+  have hpl : (e.nextPadding C).1 ≤ (X.fill_bytes rng (List.replicate (e.nextPadding C).1 0)).2.length := by
+    rw [A.fill, List.length_replicate]; exact Nat.le_refl _
+  obtain ⟨w, e', d', hp, _, hdec, _⟩ := body_packet_roundtrip C hC e d hsy src _ t hfit hpl
+  rw [Body.encodePacket_some C e src _ hfit] at hp
+  simp only [Option.some.injEq, Prod.mk.injEq] at hp
+  simp only [List.nil_append] at hl ⊢
+  rw [hp.1] at hl ⊢
+  obtain ⟨gd', sd', e2, _⟩ := decode_packet_eq A hC ov gd d (w ++ t) sd (relN_of_rel A gd d hd) hsd hl
+  have hdd : bodyDrainPacket C 3 d (w ++ t) = (d', t, .ok src) := hdec
+  rw [hdd] at e2
+  exact ⟨gd', sd', e2⟩
+
+example (b : Body) (h1 : 12 ≤ b.iv.length) (h2 : 12 ≤ b.sizeIv.length) : SessE (sessOfE b) b := sessE_sessOfE b h1 h2
 
 end Octo.VmessBodyGen
